@@ -6,6 +6,7 @@ CONSTANTS
   InitVoices = 2
   EditAt = {1, 3}
   Live = FALSE
+  ShapeSet = {"counter", "lagv", "dlv", "nestv", "paccv"}
   Frames = {1}
 INVARIANT CellsWellFormed
 INVARIANT Emit
